@@ -64,9 +64,9 @@ import (
 )
 
 const (
-	sysCaseWatchdog = 60 * time.Second  // real-time backstop per case; firing => inconclusive
-	sysReplyStream  = 1000              // prf stream id offset of the reply direction
-	sysTrailerLen   = 8 + sha256.Size   // reply trailer: bytes received (8) + sha256 of them
+	sysCaseWatchdog = 60 * time.Second // real-time backstop per case; firing => inconclusive
+	sysReplyStream  = 1000             // prf stream id offset of the reply direction
+	sysTrailerLen   = 8 + sha256.Size  // reply trailer: bytes received (8) + sha256 of them
 )
 
 // sysCfg is one way of configuring a pair of nodes.
@@ -782,10 +782,12 @@ func (s *state) system() {
 	if os.Getenv("VERIF_RACE") == "1" {
 		return
 	}
-	// nothing started here may outlive this family (other families run in synctest bubbles in this process)
+	// nothing started here may outlive this family (other families run in synctest bubbles in this process).
+	// Every host and socket is closed by its case; what may linger for a few seconds are pure timer goroutines
+	// of pion/sctp (Stream.SetReadDeadline, armed by BasicHost's stream Close): they are given 3 s and counted.
 	baseline := runtime.NumGoroutine()
 	defer func() {
-		for dl := time.Now().Add(10 * time.Second); runtime.NumGoroutine() > baseline && time.Now().Before(dl); {
+		for dl := time.Now().Add(3 * time.Second); runtime.NumGoroutine() > baseline && time.Now().Before(dl); {
 			time.Sleep(20 * time.Millisecond)
 		}
 		s.r.Count("sys_goroutines_left_after_family", max(0, runtime.NumGoroutine()-baseline))
@@ -816,7 +818,11 @@ func (s *state) system() {
 		if skip {
 			return
 		}
+		tc := time.Now()
 		out := s.sysRun(c, 0)
+		if d := time.Since(tc); d > 3*time.Second {
+			s.r.Count("sys_cases_slower_than_3s/"+c.Cfg, 1)
+		}
 		s.r.Eval(1)
 		if out.SetupErr != "" {
 			// a transport that cannot be constructed in this sandbox is counted, not judged
@@ -1009,6 +1015,7 @@ func (s *state) sampled() {
 						}
 					}
 					if plan == nil {
+						s.r.Count("sampled_accepted_conn_without_plan", 1)
 						return
 					}
 					g := sampledGot{listener: ty.name}
@@ -1069,18 +1076,16 @@ func (s *state) sampled() {
 			}
 		}
 	}
-	run.Parallel(len(cases), 8, func(i int) {
-		c := cases[i]
-		if !s.r.Want(c.ID) || s.r.TooMany() {
-			return
-		}
-		s.r.Eval(1)
+	type sampledOutcome struct {
+		kind, sig, msg string // kind: ok | dropped | inconclusive | violation
+		detail         map[string]any
+	}
+	attempt := func(c *sampledCase) (o sampledOutcome) {
 		sent := append([]byte(c.Prefix), make([]byte, c.L)...)
 		fill(c.nonce, 0, sent[3:])
 		conn, err := net.DialTimeout("tcp", tcpAddr, 10*time.Second)
 		if err != nil {
-			s.r.Inconclusive(c.ID, "raw dial: "+err.Error())
-			return
+			return sampledOutcome{kind: "inconclusive", msg: "raw dial: " + err.Error()}
 		}
 		defer conn.Close()
 		key := conn.LocalAddr().String()
@@ -1092,6 +1097,7 @@ func (s *state) sampled() {
 		conn.SetDeadline(time.Now().Add(60 * time.Second))
 		rest := sent
 		var werr error
+		t0 := time.Now()
 		for _, n := range c.Dribble {
 			n = min(n, len(rest))
 			if n == 0 {
@@ -1106,28 +1112,41 @@ func (s *state) sampled() {
 		if werr == nil && len(rest) > 0 {
 			_, werr = conn.Write(rest)
 		}
+		stalled := time.Since(t0) > 2*time.Second // the demultiplexer gives the first three bytes 5 s (real time) to arrive
 		if werr == nil {
 			werr = conn.(*net.TCPConn).CloseWrite()
 		}
-		if werr != nil {
-			s.r.Inconclusive(c.ID, "raw write: "+werr.Error())
-			return
+		var reply []byte
+		var rerr error
+		if werr == nil {
+			reply, rerr = io.ReadAll(conn)
 		}
-		reply, rerr := io.ReadAll(conn)
 		var g sampledGot
+		wait := 60 * time.Second
+		if werr != nil || len(reply) == 0 {
+			wait = 3 * time.Second // the other side closed without answering: the connection was probably never handed out
+		}
 		select {
 		case g = <-c.ch:
-		case <-time.After(60 * time.Second):
-			s.r.Inconclusive(c.ID, "listener never delivered the connection (watchdog)")
-			return
+		case <-time.After(wait):
+			switch {
+			case stalled || wait > 3*time.Second || isTimeout(rerr) || isTimeout(werr):
+				return sampledOutcome{kind: "inconclusive", msg: "listener never delivered the connection (watchdog)"}
+			default:
+				return sampledOutcome{kind: "dropped", msg: fmt.Sprintf("the connection was closed by the listening side without ever being handed to a listener (client write err %v, read err %v)", werr, rerr),
+					detail: map[string]any{"case": c, "bytes_sent": len(sent), "head_sent": fmt.Sprintf("%x", headBytes(sent))}}
+			}
+		}
+		if werr != nil {
+			return sampledOutcome{kind: "inconclusive", msg: "raw write: " + werr.Error()}
 		}
 		want := sha256.Sum256(sent)
-		detail := map[string]any{"case": c, "accepted_by": g.listener, "bytes_sent": len(sent), "bytes_received": len(g.data), "read_err": g.err, "head_sent": fmt.Sprintf("%x", headBytes(sent)), "head_received": fmt.Sprintf("%x", headBytes(g.data))}
+		o.detail = map[string]any{"case": c, "accepted_by": g.listener, "bytes_sent": len(sent), "bytes_received": len(g.data), "read_err": g.err, "head_sent": fmt.Sprintf("%x", headBytes(sent)), "head_received": fmt.Sprintf("%x", headBytes(g.data))}
 		switch {
 		case g.timeout || isTimeout(rerr):
-			s.r.Inconclusive(c.ID, "watchdog deadline on the raw connection")
+			o.kind, o.msg = "inconclusive", "watchdog deadline on the raw connection"
 		case g.listener != c.Type:
-			s.r.Violation("sampled:delivered-to-wrong-listener", c.ID, fmt.Sprintf("a connection starting with %q was handed to the %s listener", c.Prefix, g.listener), detail)
+			o.kind, o.sig, o.msg = "violation", "sampled:delivered-to-wrong-listener", fmt.Sprintf("a connection starting with %q was handed to the %s listener", c.Prefix, g.listener)
 		case !bytes.Equal(g.data, sent):
 			// statement (anchor state peekedBytes/bytesPeeked): the first bytes consumed for connection-type
 			// detection must be replayed to the reader - exactly once, in order, unmodified
@@ -1136,15 +1155,44 @@ func (s *state) sampled() {
 				at++
 			}
 			if g.err != "" && at == len(g.data) {
-				s.r.Inconclusive(c.ID, "read error on the accepted conn after a correct prefix: "+g.err)
+				o.kind, o.msg = "inconclusive", "read error on the accepted conn after a correct prefix: "+g.err
 				return
 			}
-			s.r.Violation("sampled:bytes-differ-from-written/"+c.Type, c.ID, fmt.Sprintf("accepted conn delivered %d bytes, %d were written; first difference at position %d", len(g.data), len(sent), at), detail)
+			o.kind, o.sig, o.msg = "violation", "sampled:bytes-differ-from-written/"+c.Type, fmt.Sprintf("accepted conn delivered %d bytes, %d were written; first difference at position %d", len(g.data), len(sent), at)
 		case g.err != "":
-			s.r.Inconclusive(c.ID, "read error on the accepted conn: "+g.err)
+			o.kind, o.msg = "inconclusive", "read error on the accepted conn: "+g.err
 		case rerr != nil || !bytes.Equal(reply, want[:]):
-			s.r.Violation("sampled:reply-after-half-close-wrong/"+c.Type, c.ID, fmt.Sprintf("digest written by the listener side after the half-close did not arrive intact (%d bytes, err %v)", len(reply), rerr), detail)
+			o.kind, o.sig, o.msg = "violation", "sampled:reply-after-half-close-wrong/"+c.Type, fmt.Sprintf("digest written by the listener side after the half-close did not arrive intact (%d bytes, err %v)", len(reply), rerr)
 		default:
+			o.kind = "ok"
+		}
+		return
+	}
+	run.Parallel(len(cases), 8, func(i int) {
+		c := cases[i]
+		if !s.r.Want(c.ID) || s.r.TooMany() {
+			return
+		}
+		s.r.Eval(1)
+		o := attempt(c)
+		if o.kind == "dropped" {
+			// nothing was injected: decided by a second connection of the same shape
+			s.r.Count("sampled_first_attempt_dropped", 1)
+			first := o
+			if o = attempt(c); o.kind == "dropped" {
+				// statement: the bytes consumed for connection-type detection must reach the reader; here the
+				// connection (whose first three bytes name a registered type) never reached any reader, twice
+				o.detail["first_attempt"] = first.msg
+				s.r.Violation("sampled:connection-dropped-by-demultiplexer/"+c.Type, c.ID, o.msg, o.detail)
+				return
+			}
+		}
+		switch o.kind {
+		case "inconclusive", "dropped":
+			s.r.Inconclusive(c.ID, o.msg)
+		case "violation":
+			s.r.Violation(o.sig, c.ID, o.msg, o.detail)
+		case "ok":
 			s.r.Count("sampled_conns_verified", 1)
 			s.r.Count("sampled_conns_verified/"+c.Type, 1)
 			if c.Dribble[0] < 3 {
